@@ -44,24 +44,28 @@ def structural(circuit):
     return smooth, dec
 
 
-def multiply_permuted(hk, kind, model):
+def multiply_permuted(hk, kind, model, perm=(1, 0)):
     from cirkit.symbolic import layers as L
     from cirkit.symbolic.circuit import Circuit
     import cirkit.symbolic.functional as SF
-    cands = [model] + [dict(K1=k, K2=k, C=c, v0=a, v1=b) for k in (1, 2) for c in (2, 3) for a, b in ((0, 1), (3, 7))]
+    n = len(perm)
+    cands = [model] + [dict(K1=k, K2=k, C=c, **{f"v{j}": vs[j] for j in range(n)}) for k in (1, 2) for c in (2, 3) for vs in ((0, 1, 2), (3, 7, 5))]
     for m in cands:
         try:
-            K1, K2, C, v0, v1 = (int(m[k]) for k in ("K1", "K2", "C", "v0", "v1"))
+            K1, K2, C = (int(m[k]) for k in ("K1", "K2", "C"))
+            vs = [int(m[f"v{j}"]) for j in range(n)]
         except (KeyError, TypeError, ValueError):
             continue
+        if len(set(vs)) != n:
+            continue
         ops = []
-        for K, vs in ((K1, [v0, v1]), (K2, [v1, v0])):
-            a, b = (_input(kind, v, K, C) for v in vs)
-            h = getattr(L, hk)(K, arity=2)
-            ops.append(Circuit([a, b, h], {h: [a, b]}, [h]))
+        for K, order in ((K1, vs), (K2, [vs[j] for j in perm])):
+            ins = [_input(kind, v, K, C) for v in order]
+            h = getattr(L, hk)(K, arity=n)
+            ops.append(Circuit(ins + [h], {h: ins}, [h]))
         try:
             res = SF.multiply(ops[0], ops[1])
-        except (NotImplementedError, ValueError) as e:
+        except (NotImplementedError, ValueError):
             continue
         except Exception as e:
             if type(e).__name__ == "StructuralPropertyError":
@@ -70,5 +74,5 @@ def multiply_permuted(hk, kind, model):
         smooth, dec = structural(res)
         if not (smooth and dec):
             return fail(f"multiply returned a circuit with smooth={smooth} decomposable={dec} for two {hk} circuits over variables "
-                        f"({v0},{v1}) / ({v1},{v0}) with {K1} / {K2} units, {kind} inputs")
+                        f"{vs} / {[vs[j] for j in perm]} with {K1} / {K2} units, {kind} inputs")
     return 0
